@@ -13,8 +13,8 @@ ANCHORS = [("crates/turmoil/src/sim.rs", f) for f in ("crash", "bounce", "run_wi
     ("crates/turmoil/src/net/tcp/listener.rs", f) for f in ("drop", "accept")] + [
     ("crates/turmoil/src/net/tcp/stream.rs", f) for f in ("drop", "connect")]
 
-K_WRITER = "WriterBlockedFullWindow"
-K_HALFOPEN = "AcceptedWhileConnectPending"
+# (former known-finding classes WriterBlockedFullWindow and AcceptedWhileConnectPending were repaired in
+#  /repo by df5434b, 2342d63 and 48e101e: their cases are plain violations now)
 
 HEADER = ("From TV.Lib Require Import Base.\nFrom TV.SimCore Require Import Model TokioClock Tables.\n"
           "Open Scope N_scope.\n")
@@ -126,6 +126,7 @@ def crash_oracle(case, obs):
     tick = case["cfg"]["tick_ms"] * MS
     lat = case["cfg"]["lat_ms"] * MS
     slack = lat // tick + 3                 # steps within which a peer must have been unblocked
+    slack2 = 2 * (-(-lat // tick)) + 4      # ... when a segment in flight to the crashed host has to be answered first
     faults = FC.fault_events(case, obs)
     nev = len(evs)
     inc = [0] * NH
@@ -186,24 +187,15 @@ def crash_oracle(case, obs):
                     sside = [p for p in before["hosts"][0]["streams"] if p[0] == port and p[2] == lp]
                     if est and sside:
                         e = FC.peer_end(obs, task, before["hosts"][1]["starts"] - 1)
-                        in_flight = FC.c_data_in_flight(case, obs, before["hosts"][1]["starts"] - 1, crash_time)
-                        if e is None and task == "C" and case["cfg"].get("tcp_capacity", 64) < 3 and in_flight:
-                            # C writes 3 records to a peer that never reads: with a window of 1 or 2 segments
-                            # it is blocked in write_all on flow-control credits when the server dies.
-                            # Fix df5434b repaired the case in which the server holds the data unread when it dies (its
-                            # RST now wakes the writer). What remains of the known finding WriterBlockedFullWindow:
-                            # the data that fills the window is still in flight at the crash, the server's stream
-                            # closes gracefully (FIN), the data reaches a crashed host that never answers it.
-                            out.append(("event %d (%s n0): client task C is blocked in write_all on a full send window (tcp_capacity %d) "
-                                        "to the crashed server and is never woken" % (k, name, case["cfg"].get("tcp_capacity")), K_WRITER))
-                        elif e is None:
-                            out.append(("event %d (%s n0): client task %s was connected to port %d and is still blocked at the end of the run" % (k, name, task, port), None))
-                        elif e[2] > k and steps_between(evs, k, e[2]) > slack:
-                            # task C with a full window and its data in flight at the crash is only answered (RST) once
-                            # the host is bounced and processes the segment: same residual known finding as above
-                            late_c = task == "C" and case["cfg"].get("tcp_capacity", 64) < 3 and in_flight
-                            out.append(("event %d (%s n0): client task %s was unblocked only %d steps later" % (k, name, task, steps_between(evs, k, e[2])),
-                                        K_WRITER if late_c else None))
+                        # (a writer whose data was still in flight at the crash is answered by the crashed host's
+                        # stack one latency later, fix 2342d63: allow for the round trip)
+                        in_flight = task == "C" and FC.c_data_in_flight(case, obs, before["hosts"][1]["starts"] - 1, crash_time)
+                        bound = slack2 if in_flight else slack
+                        if e is None:
+                            out.append(("event %d (%s n0): client task %s was connected to port %d and is still blocked at the end of the run%s" % (
+                                k, name, task, port, " (its data was in flight at the crash: the crashed host must answer it with a reset)" if in_flight else ""), None))
+                        elif e[2] > k and steps_between(evs, k, e[2]) > bound:
+                            out.append(("event %d (%s n0): client task %s was unblocked only %d steps later" % (k, name, task, steps_between(evs, k, e[2])), None))
                         elif e[2] > k and e[0] not in ("eof", "UnexpectedEof", "ConnectionReset", "BrokenPipe"):
                             out.append(("event %d (%s n0): client task %s ended with %s" % (k, name, task, e[0]), None))
                 # the burst port: both clients (peek + read_exact, plain reads) must reach the end of
@@ -262,12 +254,12 @@ def crash_oracle(case, obs):
                         continue
                     in_flight = crash_time < FC.delivered_by(case, x[7])
                     end = [y for y in log if y[0] == 0 and y[1] == sinc and y[2] == "push" and y[3] == "end" and y[5] == rp]
-                    klass = K_WRITER if in_flight else None
+                    klass = None
                     if not end:
                         out.append(("event %d (%s n1): the server task writing to the stream accepted from n1 port %d (a client that never "
                                     "reads, window of %d segments) is still blocked in write_all at the end of the run" % (
                                         k, name, rp, case["cfg"].get("tcp_capacity", 64)), klass))
-                    elif end[0][6] > k and steps_between(evs, k, end[0][6]) > slack + 1:
+                    elif end[0][6] > k and steps_between(evs, k, end[0][6]) > (slack2 if in_flight else slack + 1):
                         out.append(("event %d (%s n1): the server task writing to the stream accepted from n1 port %d was unblocked only %d steps later" % (
                             k, name, rp, steps_between(evs, k, end[0][6])), klass))
                     elif end[0][4] not in ("BrokenPipe", "ConnectionReset"):
@@ -289,7 +281,7 @@ def crash_oracle(case, obs):
                                 out.append(("event %d (%s n1): the server task reading the stream accepted on port %d from n1 port %d still "
                                             "holds it at the end of the run (never saw EOF / reset)%s" % (
                                                 k, name, d[1], d[3], "" if cobj else "; the client's connect() had not returned yet (ConnectGuard)"),
-                                            None if cobj else K_HALFOPEN))
+                                            None))
     # --- while down: no effect attributable to the host ---------------------------------------
     # replies to datagrams the client sent after the server went down
     down = None
@@ -343,6 +335,42 @@ def crash_oracle(case, obs):
                                     m, 1000 + i, i * tick, t_join, [(kk, nn, vv) for (kk, nn, vv, _, _, _) in faults]), None))
                     break
                 i += 1
+    # --- a connection attempt that reaches a crashed host is refused, it does not stay pending ----------
+    if not any(1 in vv for (_, _, vv, _, _, _) in faults):
+        spans = []                      # [crash elapsed, bounce elapsed or None] of n0
+        cur = None
+        for (k, name, victims, before, after, r) in faults:
+            if 0 in victims and r == "ok":
+                if name == "crash" and before["hosts"][0]["running"] and cur is None:
+                    cur = before["elapsed"]
+                elif name == "bounce" and cur is not None:
+                    spans.append((cur, before["elapsed"]))
+                    cur = None
+        end_time = sum(1 for e in evs if e["k"] == "step") * tick
+        if cur is not None:
+            spans.append((cur, end_time))
+        for (d0, d1) in spans:
+            for x in log:
+                if x[0] != 1 or x[3] != "try" or x[2] not in ("F", "B"):
+                    continue
+                t_try = x[7]
+                arrive = FC.delivered_by(case, t_try)
+                if not (d0 + tick <= t_try and arrive + tick <= d1):
+                    continue            # the SYN must leave and arrive while the host is down
+                what = "result" if x[2] == "F" else "connect"
+                res = [y for y in log if y[0] == 1 and y[1] == x[1] and y[2] == x[2] and y[3] == what and y[4] == x[4]]
+                if x[2] == "F" and arrive - t_try + tick > 3 * tick:
+                    continue            # F gives up after 3 ticks: too short for this latency
+                if not res:
+                    if arrive + 2 * tick <= end_time:
+                        out.append(("connect attempt %s#%d made at %d ns while n0 is crashed (since %d ns) is still pending at the end of the run: "
+                                    "a crashed host must refuse it" % (x[2], x[4], t_try, d0), None))
+                elif res[0][5] != "ConnectionRefused":
+                    out.append(("connect attempt %s#%d made at %d ns while n0 is crashed (since %d ns) ended with %s instead of ConnectionRefused" % (
+                        x[2], x[4], t_try, d0, res[0][5]), None))
+                elif res[0][7] > arrive + tick:
+                    out.append(("connect attempt %s#%d made at %d ns while n0 is crashed was refused only at %d ns (it reached the host by %d ns)" % (
+                        x[2], x[4], t_try, res[0][7], arrive), None))
     # --- what reached the server while it was down is not handed to the new incarnation ----------
     down_from = None
     client_untouched = not any(1 in vv for (_, _, vv, _, _, _) in faults)   # ids / attempts are numbered per client incarnation
@@ -467,7 +495,7 @@ class Spec(PropSpec):
     subsys = "SimCore"
     props_file = "C04.v"
     theorems = ["c04_crash_stops", "c04_not_polled", "c04_bounce_once", "c04_starts_only_bounce", "c04_isolation",
-                "c04_tables_released", "c04_owns_api", "c04_nonvacuous_core", "c04_nonvacuous_tables"]
+                "c04_tables_released", "c04_owns_api", "c04_crashed_stack_answers", "c04_crashed_flag", "c04_nonvacuous_core", "c04_nonvacuous_tables"]
     coq_targets = ["C04.vo"]
     consts = []
     anchors = ANCHORS
